@@ -3,6 +3,9 @@ C19 — invalid requests are rejected and rejected setters change nothing.
 
 Lean: `Model/Validation.lean` (guards of constructors, bases, array checks, CCQR, GQR, box helper) together with the
 setter/update transitions of `Model/Sspor.lean` and `Model/Sspoc.lean`; theorems in `Props/C19.lean`.
+Translator: the guard trees of 23 entry points are REGENERATED from /repo's current source on every run
+(`harness/translate_guards.py` → `lean/PsVerif/Generated/Guards.lean`), each with a theorem that the tree equals the model
+function (`Model/GuardSpecs.lean`), re-checked by `lake build PsVerif.Generated.Guards` and audited for axioms.
 Correspondence: the finite table entry point × value class × life phase is executed on the real objects (exhaustive),
 outcome kinds compared with the Lean decision and with the error kind the property states; observables compared before
 and after every rejected setter / update.
@@ -14,7 +17,7 @@ import copy
 import numpy as np
 
 from .. import common as C
-from .. import models
+from .. import guards_static, models
 from ..sspor_hist import err_kind
 
 LEVEL = "proof"
@@ -25,7 +28,9 @@ RULE = ("the whole table: entry points (SSPOR / SSPOC constructors, setters, upd
         "every cell is distinct by construction; exhaustive in both tiers (thorough adds random data shapes)")
 TRUSTED = [
     "Lean 4.33 kernel; axioms propext, Classical.choice, Quot.sound",
-    "hand-written guard model Model/Validation.lean (+ Sspor/Sspoc transitions) tied to the code by executing the same table",
+    "hand-written guard model Model/Validation.lean (+ Sspor/Sspoc transitions) tied to the code (a) by the guard translator "
+    "harness/translate_guards.py (its reading of if/elif/else, raise, return, check_is_fitted, isinstance, comparisons; atoms are "
+    "named by source text; statements that are not checks are ignored; callees are not followed) and (b) by executing the table",
     "sklearn.utils.validation.check_is_fitted raises NotFittedError for estimators without the attribute",
 ]
 ASSUMPTIONS = ["'predictions unchanged' is checked on a fixed probe input, bitwise"]
@@ -384,12 +389,23 @@ def history_rows(ctx):
 
 def run(ctx: C.Ctx):
     rng = ctx.rng
+    offenders, n_oblig, _ = guards_static.static_part(ctx)
+    n_before = len(ctx.violations)
     history_rows(ctx)
     for rep in range(ctx.scale(1, 6)):
         T, info = build_table(ctx, rng)
         judge(ctx, T, info, f"t{rep}:")
     narrower_data_case(ctx)
     ctx.extra["exhaustive"] = True
+    if offenders:
+        if any(v.kind == "concrete" for v in ctx.violations[n_before:]):
+            ctx.notes.append("generated guard theorems that no longer check: " + ", ".join("guard_" + o for o in offenders))
+        else:
+            ctx.violation("no-failing-input-found",
+                          "generated guard theorem(s) no longer check: " + ", ".join("guard_" + o for o in offenders)
+                          + " – the table run on the real code found no offending call",
+                          {"signature": "guard-obligation:" + offenders[0], "offenders": offenders},
+                          broken="theorem(s) " + ", ".join("PsVerif.Gen.guard_" + o for o in offenders) + " (PsVerif/Generated/Guards.lean)")
 
 
 def replay(ctx: C.Ctx, payload):
